@@ -317,6 +317,20 @@ Example C17_failing_tee_example :
      end.
 Proof. vm_compute. repeat split; reflexivity. Qed.
 
+(* the same tty opened twice in a row, its settings changed from outside in between (7, then 5): every
+   object saves what it finds when it is opened and its release restores exactly that - the model has
+   no state outside the terminal object (a process-wide table of "original" settings would show in
+   the correspondence: `reopen` cases and sessions that find the tty with varying settings) *)
+Example C17_reopen_example :
+  let r0 : round_env N := mkR false [] false (Some 100%N) false [] [] [] 1024 in
+  let r1 : round_env N := mkR false [MInput [9%N]] false (Some 100%N) false [] [] [] 1024 in
+  match dispose (fun t => N.eqb t 9) [27; 99]%N 5 (opened 7 8 : pstate N N) [r0; r1; r1],
+        dispose (fun t => N.eqb t 9) [27; 99]%N 5 (opened 5 8 : pstate N N) [r0; r1; r1] with
+  | Some a, Some b => cur a = 7%N /\ cur b = 5%N
+  | _, _ => False
+  end.
+Proof. vm_compute. split; reflexivity. Qed.
+
 (* SIGWINCH flagged together with a termination signal: the Resize event is queued before the
    quit error is returned, and the next poll returns it *)
 Example C17_winch_with_quit_example :
